@@ -56,6 +56,8 @@ SEV_NAMES = ["trace", "debug", "info", "warn", "error", "fatal"]
 LOG_VARIANTS = {}
 for _i, _n in enumerate(SEV_NAMES):
     LOG_VARIANTS["plain+min%d" % _i] = {"flags": ["-DNITRO_LOG_MIN_SEVERITY=%s" % _n, "-DVP_MIN=%d" % _i]}
+# the minimum defined by the program itself after other nitro log headers were included (instead of -D on the command line)
+LOG_VARIANTS["plain+late3"] = {"flags": ["-DVP_LATE_DEFINE=warn", "-DVP_MIN=3"]}
 for _i in (0, 3):
     LOG_VARIANTS["asan+min%d" % _i] = {"flags": ["-DNITRO_LOG_MIN_SEVERITY=%s" % SEV_NAMES[_i], "-DVP_MIN=%d" % _i]}
 
@@ -182,7 +184,7 @@ CHECKS = {
     "C09": dict(src=["checks/C09.cpp", "engine/sched.c"], nitro=[],
                 variants={"plain": {"no_sanitize_src": ["engine/sched.c"]},
                           "tsan": {"flags": ["-DVP_TSAN", "-DVP_NO_INTERPOSE"], "no_sanitize_src": ["engine/sched.c"]}},
-                runs=lambda tier: [{"variant": "plain"}, {"variant": "tsan"}],
+                runs=lambda tier: [{"variant": "plain"}, {"variant": "tsan"}], libs=["-ldl"],
                 deadline_s={"quick": 240, "thorough": 1500},
                 assumptions=["sequential consistency between scheduling points; weak memory reorderings are not modelled",
                              "scheduling points: pthread_mutex_lock/unlock/trylock (link-time interposition, mutexes modelled by an owner table), every byte "
